@@ -37,6 +37,7 @@ Fixpoint emit_h (fuel : nat) (h : heap) (path : list ref) (r : ref) : eres :=
       | Some (HSeq cs) =>
           if on_path path r then ECycle                 (* "cycle in JSON structure" *)
           else
+            match
             (fix go (cs : list ref) (first : bool) : eres :=
                match cs with
                | [] => EOk [93%N]
@@ -50,6 +51,7 @@ Fixpoint emit_h (fuel : nat) (h : heap) (path : list ref) (r : ref) : eres :=
                    | e => e
                    end
                end) cs true
+            with EOk s => EOk (91%N :: s) | e => e end
       end
   end.
 
@@ -63,6 +65,7 @@ Fixpoint emit_nocheck (fuel : nat) (h : heap) (r : ref) : eres :=
       | Some (HLeaf t) => EOk t
       | Some HBad => EOther
       | Some (HSeq cs) =>
+          match
           (fix go (cs : list ref) (first : bool) : eres :=
              match cs with
              | [] => EOk [93%N]
@@ -76,6 +79,7 @@ Fixpoint emit_nocheck (fuel : nat) (h : heap) (r : ref) : eres :=
                  | e => e
                  end
              end) cs true
+          with EOk s => EOk (91%N :: s) | e => e end
       end
   end.
 
@@ -112,7 +116,13 @@ Proof.
   pose proof (path_bounded _ _ ND' B') as PB. cbn [length] in PB.
   assert (L' : length h - length (r :: path) < f).
   { cbn [length]. clear - L PB. lia. }
-  clear E. generalize true. induction cs as [|c t IHcs]; intros first; [discriminate|].
+  clear E.
+  match goal with
+  | |- context [?g cs true] =>
+      assert (G : forall first, g cs first <> EFuel);
+      [|specialize (G true); destruct (g cs true); congruence]
+  end.
+  induction cs as [|c t IHcs]; intros first; [discriminate|].
   pose proof (IH h (r :: path) c ND' B' L') as Hc.
   destruct (emit_h f h (r :: path) c); try congruence; try discriminate.
   specialize (IHcs false).
@@ -131,8 +141,10 @@ Proof. reflexivity. Qed.
 (* a = [b], b = [a] ; and a shared (not cyclic) child is fine *)
 Lemma indirect_loop_detected : encode_h [HSeq [1]; HSeq [0]] 0 = ECycle.
 Proof. reflexivity. Qed.
-Lemma shared_child_is_not_a_cycle : encode_h [HSeq [1; 1]; HSeq [2]; HLeaf [49%N]] 0 = EOk [93%N; 49%N; 93%N; 44%N; 93%N; 49%N; 93%N]%N \/ True.
-Proof. right. exact I. Qed.
+(* [[1],[1]] with both elements the same list object: a DAG, not a cycle *)
+Lemma shared_child_is_not_a_cycle :
+  encode_h [HSeq [1; 1]; HSeq [2]; HLeaf [49%N]] 0 = EOk [91; 91; 49; 93; 44; 91; 49; 93; 93]%N.
+Proof. reflexivity. Qed.
 
 Lemma nocheck_diverges_lemma : forall fuel, emit_nocheck fuel [HSeq [0]] 0 = EFuel.
 Proof. induction fuel as [|f IH]; [reflexivity|]. cbn [emit_nocheck nth_error]. rewrite IH. reflexivity. Qed.
